@@ -55,11 +55,17 @@ func diff(want, got reflect.Value, path string) (string, string) {
 	}
 	switch t.Kind() {
 	case reflect.Ptr:
+		if nullish(want) && nullish(got) {
+			// *[]T, *map[..]T, **T have several Go forms of null (nil pointer, pointer
+			// to nil); all of them encode as the same null, so no decoder can
+			// reproduce each of them: any null form is accepted for any other.
+			return "", ""
+		}
 		if want.IsNil() != got.IsNil() {
 			if want.IsNil() {
-				return path + ": nil pointer became non-nil", "nil-pointer-became-non-nil"
+				return path + ": nil pointer became non-nil", "nil-pointer-became-non-nil:" + kindName(t)
 			}
-			return path + ": non-nil pointer became nil", "pointer-became-nil"
+			return path + ": non-nil pointer became nil", "pointer-became-nil:" + kindName(t)
 		}
 		if want.IsNil() {
 			return "", ""
@@ -402,4 +408,66 @@ func ctyKindName(v cty.Value) string {
 		return "capsule"
 	}
 	return "other"
+}
+
+// nullish: v is a Go form of null: a nil pointer / slice / map, or a non-nil
+// pointer to such a form.
+func nullish(v reflect.Value) bool {
+	if v.Type() == gen.GoCtyValueType {
+		// a nil *cty.Value and a pointer to the null of unknown type have the same encoding
+		x := v.Interface().(cty.Value)
+		return x != cty.NilVal && x.Type() == cty.DynamicPseudoType && x.IsKnown() && x.IsNull()
+	}
+	switch v.Kind() {
+	case reflect.Slice, reflect.Map:
+		return v.IsNil()
+	case reflect.Ptr:
+		return v.IsNil() || nullish(v.Elem())
+	}
+	return false
+}
+
+// nullFormChanged: somewhere in the two values a null is carried by two
+// different Go forms (nil pointer vs pointer to nil). Counted, not a violation.
+func nullFormChanged(a, b reflect.Value) bool {
+	if isSpecial(a.Type()) {
+		return false
+	}
+	switch a.Kind() {
+	case reflect.Ptr:
+		if nullish(a) && nullish(b) {
+			for a.Kind() == reflect.Ptr && b.Kind() == reflect.Ptr {
+				if a.IsNil() != b.IsNil() {
+					return true
+				}
+				if a.IsNil() {
+					return false
+				}
+				a, b = a.Elem(), b.Elem()
+			}
+			return false
+		}
+		if !a.IsNil() && !b.IsNil() {
+			return nullFormChanged(a.Elem(), b.Elem())
+		}
+	case reflect.Slice, reflect.Array:
+		for i := 0; i < a.Len() && i < b.Len(); i++ {
+			if nullFormChanged(a.Index(i), b.Index(i)) {
+				return true
+			}
+		}
+	case reflect.Map:
+		for _, k := range a.MapKeys() {
+			if e := b.MapIndex(k); e.IsValid() && nullFormChanged(a.MapIndex(k), e) {
+				return true
+			}
+		}
+	case reflect.Struct:
+		for i := 0; i < a.NumField(); i++ {
+			if nullFormChanged(a.Field(i), b.Field(i)) {
+				return true
+			}
+		}
+	}
+	return false
 }
